@@ -97,7 +97,7 @@ impl World {
             "cwd_name" => self.cwd_name = 1 + rng.below(5) as u8,
             "rel" => self.rel = 1 + rng.below(2) as u8,
             "file_name" => self.file_name = [1, 2, 3, 5][rng.usize_below(4)],
-            "spelling" => self.spelling = [1, 2, 3, 4, 5, 6, 12, 13, 14, 15, 16][rng.usize_below(11)],
+            "spelling" => self.spelling = [1, 2, 3, 4, 5, 6, 12, 13, 14, 15, 16, 17][rng.usize_below(12)],
             "argv0" => self.argv0 = 1 + rng.below(2) as u8,
             "env_kind" => self.env_kind = 1 + rng.below(2) as u8,
             "locale" => self.locale = 1 + rng.below(4) as u8,
@@ -215,7 +215,7 @@ impl World {
             "stdout" | "stderr" => 7,
             "env_bytes" => 6,
             "rlimit" => 7,
-            "spelling" => 11,
+            "spelling" => 12,
             _ => 0,
         }
     }
